@@ -108,11 +108,11 @@ bool rsValuesFacet::SetBasicText(const EntityUID target, const TextInterpretatio
   } else if (!IsBaseSet(core.GetRS(target).type)) {
     return false;
   } else {
-    const auto dataChange = std::ssize(newInterp) != std::ssize(*TextFor(target));
+    const auto oldData = SDataFor(target);
     if (!SetTextInternal(target, newInterp)) {
       return false;
     } else {
-      if (dataChange) {
+      if (const auto dataChange = oldData != SDataFor(target); dataChange) {
         core.ResetDependants(target);
       }
       core.NotifyModification();
